@@ -19,7 +19,7 @@ ATTRS = ["filter", "flatten", "test", "test_all", "from_spec", "is_like", "to_js
 
 def inject(rng):
     """(op, spec, class label)"""
-    k = rng.randrange(24)
+    k = rng.randrange(26)
     leaf = lambda: gd.spell_leaf(rng, gd.spec_leaf_recipe(rng, [("value", "none")]))   # noqa: E731
     if k == 0:
         return "parse_cond", {rng.choice(["valuex", "foo", "values", "val", "path"]) + ".equal_to": 1}, "unknown datum kind"
@@ -74,7 +74,14 @@ def inject(rng):
         return "parse_cond", {rng.choice(["value", "value.", ".eq", "value.length", "value.len", "value.a.b.c", "value.length.eq.x", ""]): 1}, "malformed key"
     if k == 22:
         return "parse_path", rng.choice([{"paths": ["a"]}, {"a.path": ["a"]}, {"path.length.first.all": ["a"]}, ["a"], "a/b", {"path.first": ["a"]}, {"path.type.length": [{"type": "map_value"}]}]), "malformed path spec"
-    return "parse_parts", rng.choice([[None], [["a"]], [{"type": "map_value", "condition": {"nope.eq": 1}}], ["a", {"type": "x"}]]), "malformed part list"
+    if k == 23:
+        return "parse_parts", rng.choice([[None], [["a"]], [{"type": "map_value", "condition": {"nope.eq": 1}}], ["a", {"type": "x"}]]), "malformed part list"
+    if k == 24:
+        doc = rng.choice([["para", 2], [None], {"description": 3}, {"examples": [None, "x"]}, {"description": {"a": 1}}, 5, True,
+                          {"description": ["ok"], "examples": "not a list"}, [["nested"]], {"description": [1.5]}, {1: "x"}])
+        return "parse_rule", {"path": ["a"], "condition": {"value.truthy": None}, "doc": doc}, "malformed doc block"
+    return "parse_schema", rng.choice([[{"path": ["a"], "condition": {"value.eq": 1}, "doc": [3]}], [{"path": ["a"]}], [5], ["rule"],
+                                       [{"path": ["a"], "condition": {"value.eq": 1}, "cast": ["str"]}]]), "malformed rule in a schema"
 
 
 def mutate(rng, x, depth=0):
